@@ -154,6 +154,8 @@ type oSnap struct {
 	Strand     int8
 	Cols       []string // column view with fill (letters)
 	ColsQ      []string // qualities of the column view (quality containers)
+	ColsNoFill []string // row-stored containers: column view without fill (letters of the covering rows, in row order)
+	Len        int      // Len() of the container (-1: not observed)
 }
 
 const qThreshold = 2 // alignment.QSeq default threshold
@@ -170,7 +172,15 @@ func (m *mCont) snapshot() oSnap {
 	switch {
 	case m.isLinear():
 		o.Start, o.End, o.Strand = o.Rows[0].Start, o.Rows[0].End, o.Rows[0].Strand
+		o.Len = o.End - o.Start
+	case m.isSet():
+		for _, r := range m.Rows {
+			if len(r.L) > o.Len {
+				o.Len = len(r.L)
+			}
+		}
 	case m.colStored():
+		o.Len = len(m.Rows[0].L)
 		o.Start, o.End, o.Strand = 0, len(m.Rows[0].L), m.Strand
 		for p := 0; p < len(m.Rows[0].L); p++ {
 			var c, q []byte
@@ -195,9 +205,16 @@ func (m *mCont) snapshot() oSnap {
 		}
 	case m.isMulti():
 		o.Start, o.End = m.span()
+		o.Len = o.End - o.Start
 		gap := byte(m.alpha().Gap())
 		for p := o.Start; p < o.End; p++ {
-			var c, q []byte
+			var c, q, nf []byte
+			for _, r := range m.Rows {
+				if r.Start <= p && p < r.Start+len(r.L) {
+					nf = append(nf, r.L[p-r.Start])
+				}
+			}
+			o.ColsNoFill = append(o.ColsNoFill, string(nf))
 			for _, r := range m.Rows {
 				if r.Start <= p && p < r.Start+len(r.L) {
 					c = append(c, r.L[p-r.Start])
@@ -245,7 +262,9 @@ func (m *mCont) observe(x interface{}) oSnap {
 		l, qq := readRow(s, s.Start(), s.End(), q)
 		o.Rows = []oRow{{s.Start(), s.End(), l, qq, strandOf(s), s.Name()}}
 		o.Start, o.End, o.Strand = s.Start(), s.End(), strandOf(s)
+		o.Len = s.Len()
 	case *alignment.Seq:
+		o.Len = v.Len()
 		o.Start, o.End, o.Strand = v.Start(), v.End(), int8(v.Strand)
 		for i := 0; i < v.Rows(); i++ {
 			r := v.Row(i)
@@ -271,6 +290,7 @@ func (m *mCont) observe(x interface{}) oSnap {
 			}
 		}
 	case *alignment.QSeq:
+		o.Len = v.Len()
 		o.Start, o.End, o.Strand = v.Start(), v.End(), int8(v.Strand)
 		for i := 0; i < v.Rows(); i++ {
 			r := v.Row(i)
@@ -306,6 +326,20 @@ func (m *mCont) observe(x interface{}) oSnap {
 		}
 	case *multi.Multi:
 		o.Start, o.End = v.Start(), v.End()
+		o.Len = v.Len()
+		for p := o.Start; p < o.End; p++ {
+			nf := string(alphabet.LettersToBytes(v.Column(p, false)))
+			for k, x := range v.ColumnQL(p, false) {
+				if k >= len(nf) || byte(x.L) != nf[k] {
+					nf = "ColumnQL(pos, false) disagrees with Column(pos, false)"
+					break
+				}
+			}
+			if len(v.ColumnQL(p, false)) != len(nf) && !strings.HasPrefix(nf, "ColumnQL") {
+				nf = "ColumnQL(pos, false) and Column(pos, false) differ in length"
+			}
+			o.ColsNoFill = append(o.ColsNoFill, nf)
+		}
 		for i := 0; i < v.Rows(); i++ {
 			r := v.Row(i)
 			l, qq := readRow(r, r.Start(), r.End(), q)
@@ -340,6 +374,7 @@ func (m *mCont) observe(x interface{}) oSnap {
 			o.Cols = append(o.Cols, c)
 		}
 	case multi.Set:
+		o.Len = v.Len()
 		for i := 0; i < v.Rows(); i++ {
 			r := v.Row(i)
 			l, qq := readRow(r, r.Start(), r.End(), q)
@@ -382,6 +417,17 @@ func snapDiff(got, want oSnap) string {
 	for p := range got.Cols {
 		if got.Cols[p] != want.Cols[p] {
 			return fmt.Sprintf("column view at index %d is %q, row view gives %q", p, got.Cols[p], want.Cols[p])
+		}
+	}
+	if got.Len != want.Len {
+		return fmt.Sprintf("Len() = %d, want %d", got.Len, want.Len)
+	}
+	if len(got.ColsNoFill) != len(want.ColsNoFill) {
+		return fmt.Sprintf("%d columns without fill, want %d", len(got.ColsNoFill), len(want.ColsNoFill))
+	}
+	for p := range got.ColsNoFill {
+		if got.ColsNoFill[p] != want.ColsNoFill[p] {
+			return fmt.Sprintf("column view without fill at index %d is %q, the covering rows give %q", p, got.ColsNoFill[p], want.ColsNoFill[p])
 		}
 	}
 	if len(got.ColsQ) != len(want.ColsQ) {
